@@ -72,6 +72,12 @@ def intLimits (isBool : Bool) (bits : Nat) (sg : Bool) : IntLimits :=
     min := if sg then -(2 ^ digits) else 0, max := 2 ^ digits - 1,
     lowest := if sg then -(2 ^ digits) else 0, isModulo := !sg && !isBool }
 
+/-- `traps` ([numeric.limits.members]: "true if, at the start of the program, there exists a value of the type that would
+    cause an arithmetic operation using that value to trap") is the implementation's call.  libstdc++ 12 - the reference
+    of this property - answers `true` for every integer type, `bool` included (`__glibcxx_integral_traps`: integer
+    division by zero traps on x86-64); libc++ and MSVC answer `false` for `bool`. -/
+def intTraps (_isBool : Bool) : Bool := true
+
 /-! ## (c) type traits -/
 
 open CType
